@@ -2,7 +2,10 @@ package props
 
 import (
 	"fmt"
+	"math/big"
 	"testing"
+
+	"github.com/db47h/decimal"
 
 	"pgregory.net/rapid"
 
@@ -273,13 +276,87 @@ func checkC09(c ProgCase, o *h.Obs) *h.Fail {
 	return nil
 }
 
-const ruleC09 = "the C08 state machine with the receiver's precision forced to 0 before about 30% of the steps and receiver/operand modes drawn independently. Before each step all variables are snapshotted (form, sign, mantissa words, exponent, precision, mode, accuracy); after it: every variable that is not the receiver is bit-identical; the receiver's mode is unchanged unless the operation is SetMode or one documented to copy attributes (Copy, SetMantExp, MantExp's out-parameter, GobDecode into a precision-0 receiver), in which case it equals the argument's; the receiver's precision is unchanged unless it was 0 - then it must equal the documented value (max operand precision for Add/Sub/Mul/Quo/FMA, x's for Sqrt/Set/Neg/Abs, max(34,digits) for SetInt, 34 for SetInt64/SetUint64/strings, 17 for SetFloat64, ceil(prec*log10 2) for SetFloat, either documented reading for SetRat) - or the operation is SetPrec / attribute-copying. Not asserted: empty Gob payload, corrupted payloads (C17), precision after a rejected literal, precision-0 SetBitsExp (unspecified). Non-trivial = a run containing a step whose receiver had precision 0 or whose operands' modes differ from the receiver's; distinct by program encoding."
+const ruleC09 = "the C08 state machine with the receiver's precision forced to 0 before about 30% of the steps and receiver/operand modes drawn independently. Before each step all variables are snapshotted (form, sign, mantissa words, exponent, precision, mode, accuracy); after it: every variable that is not the receiver is bit-identical; the receiver's mode is unchanged unless the operation is SetMode or one documented to copy attributes (Copy, SetMantExp, MantExp's out-parameter, GobDecode into a precision-0 receiver), in which case it equals the argument's; the receiver's precision is unchanged unless it was 0 - then it must equal the documented value (max operand precision for Add/Sub/Mul/Quo/FMA, x's for Sqrt/Set/Neg/Abs, max(34,digits) for SetInt, 34 for SetInt64/SetUint64/strings, 17 for SetFloat64, ceil(prec*log10 2) for SetFloat, either documented reading for SetRat) - or the operation is SetPrec / attribute-copying. Enumerated on every run (TestC09Grid): the precision a precision-0 receiver gets from SetFloat for every big.Float precision 1..45000 (thorough: 120000) against ceil(p*log10 2) computed with a 60-digit constant, and SetInt's max(34, digits) for 1..400 digits. TestC09Ops runs single operations from the C01 generator (operands up to 24000 digits) under the operand-unmodified and sticky assertions only. Not asserted: empty Gob payload, corrupted payloads (C17), precision after a rejected literal, precision-0 SetBitsExp (unspecified). Non-trivial = a run containing a step whose receiver had precision 0 or whose operands' modes differ from the receiver's; distinct by program encoding."
 
 var propC09 = &h.Prop[ProgCase]{ID: "C09", Rule: ruleC09, Gen: func(t *rapid.T) ProgCase {
 	o := sm.DefaultOpts()
 	o.Prec0Bias = true
 	return genProg(t, o)
 }, Check: checkC09, Matchers: map[string]func(ProgCase) bool{}}
+
+// TestC09Grid enumerates the documented precision of a precision-0 receiver after SetFloat for every
+// big.Float precision up to 45000 bits (a formula that is right "almost everywhere" is wrong at isolated
+// precisions), and SetInt's max(34, digits) rule for every digit count up to 400.
+func TestC09Grid(t *testing.T) {
+	defer h.WriteStats("C09")
+	// log10(2) to 60 digits as a rational: ceil(p*log10 2) is then exact for every p in range
+	l2, _ := new(big.Rat).SetString("0.301029995663981195213738894724493026768189881462108541310427")
+	n := 0
+	max := 45000
+	if h.Thorough() {
+		max = 120000
+	}
+	for p := 1; p <= max; p++ {
+		x := new(big.Float).SetPrec(uint(p)).SetInt64(3)
+		z := new(decimal.Decimal).SetFloat(x)
+		prod := new(big.Rat).Mul(l2, new(big.Rat).SetInt64(int64(p)))
+		want := new(big.Int).Quo(prod.Num(), prod.Denom()).Int64() + 1 // ceil of a non-integer
+		if got := z.Prec(); int64(got) != want {
+			c := ProgCase{Prog: sm.Program{Init: []h.Spec{{F: "z"}}, Steps: []sm.Step{{Op: "setfloat", Z: 0, FK: "fin", F: 3, FP: uint(p)}}}}
+			h.ReportGridFail(t, "C09", h.Failf("prec0", "SetFloat of a %d-bit big.Float into a precision-0 receiver: precision %d, documented ceil(%d*log10 2) = %d", p, got, p, want), mustJSON(c))
+		}
+		if mode := z.Mode(); mode != decimal.ToNearestEven {
+			t.Fatalf("mode changed")
+		}
+		n++
+	}
+	ten := big.NewInt(10)
+	v := big.NewInt(1)
+	for d := 1; d <= 400; d++ {
+		z := new(decimal.Decimal).SetInt(v)
+		want := uint(d)
+		if want < 34 {
+			want = 34
+		}
+		if z.Prec() != want {
+			c := ProgCase{Prog: sm.Program{Init: []h.Spec{{F: "z"}}, Steps: []sm.Step{{Op: "setint", Z: 0, I: v.String()}}}}
+			h.ReportGridFail(t, "C09", h.Failf("prec0", "SetInt of a %d-digit integer into a precision-0 receiver: precision %d, documented %d", d, z.Prec(), want), mustJSON(c))
+		}
+		v.Mul(v, ten)
+		n++
+	}
+	h.AddExtra("C09", "precision_rule_grid_cases_enumerated", n)
+}
+
+// TestC09Ops runs single operations of every size (the C01 generator, which reaches operands of a thousand words)
+// under the "operands are never modified, receiver precision and mode are sticky" assertions only.
+var propC09Ops = &h.Prop[C01Case]{ID: "C09", Rule: ruleC09, Gen: genC01, Check: func(c C01Case, o *h.Obs) *h.Fail {
+	if c.P == 0 && c.Op != "setprec" {
+		return h.Failf("bad-case", "precision 0")
+	}
+	zd, xd, yd := c01ExecOps(c)
+	o.Label("single-op:" + c.Op)
+	if len(c.X.D) > 1024*h.DW || len(c.Y.D) > 1024*h.DW {
+		o.Label("single-op:operand>1024words")
+		o.NonTrivial()
+	}
+	if xd != nil && xd != zd {
+		if xs := h.Read(xd); xs.Malformed != "" || !xs.Val().Equal(c.X.Val()) || xs.Prec != c.X.P || xs.Mode != c.X.M {
+			return h.Failf("operand-modified", "%s changed its first operand: %v is now %v", c.Op, c.X, xs)
+		}
+	}
+	if yd != nil && yd != zd {
+		if ys := h.Read(yd); ys.Malformed != "" || !ys.Val().Equal(c.Y.Val()) || ys.Prec != c.Y.P || ys.Mode != c.Y.M {
+			return h.Failf("operand-modified", "%s changed its second operand: %v is now %v", c.Op, c.Y, ys)
+		}
+	}
+	if zs := h.Read(zd); zs.Prec != c.P || zs.Mode != c.M {
+		return h.Failf("prec-sticky", "%s: receiver precision %d mode %v became %d %v", c.Op, c.P, model.Mode(c.M), zs.Prec, model.Mode(zs.Mode))
+	}
+	return nil
+}, Matchers: map[string]func(C01Case) bool{}, Filter: func(string) bool { return false }}
+
+func TestC09Ops(t *testing.T) { propC09Ops.Search(t) }
 
 func TestC09(t *testing.T)       { propC09.Search(t) }
 func TestC09Replay(t *testing.T) { propC09.Replay(t) }
